@@ -1241,6 +1241,11 @@ std::unique_ptr<PDU> build_case(Src& s, Ctx& ctx, std::vector<std::string>& prog
         if (t == typeid(IPv6)) ipv6_chain_program(*static_cast<IPv6*>(p), s, prog);
         else if (t == typeid(ICMP)) rfc4884_program(*static_cast<ICMP*>(p), false, s, prog);
         else if (t == typeid(ICMPv6)) { if (s.chance(60)) rfc4884_program(*static_cast<ICMPv6*>(p), true, s, prog); else if (s.chance(40)) option_program(*p, s, prog); }
+        else if (t == typeid(Dot1Q)) {
+            // the documented switch that makes the tag pad short frames itself; decided by the VLAN id (no further choice byte)
+            Dot1Q* q = static_cast<Dot1Q*>(p);
+            if (q->id() & 1) { q->append_padding(true); prog.push_back("Dot1Q::append_padding(true)"); ctx.label("dot1q-append-padding"); }
+        }
         else if (s.chance(50)) option_program(*p, s, prog);
         enforce_capacity(*p, ctx, prog);
     }
